@@ -46,3 +46,21 @@ package config
 //@ func ParseDurations
 //@   opts trusted
 //@   modifies heap(time.Duration)
+
+// ---- "a value that validation rejects is refused at load time with an error": the environment overlay ----
+// envRefused: component ApplyEnvVars calls that returned an error (each of them validates what it applied)
+//@ ghost var envRefused int
+//@ interface ComponentConfig.ApplyEnvVars()
+//@   counts envRefused when err != nil
+//@   modifies nothing
+
+// a refusal by any registered component (or by the cluster section) is returned to the loader, never dropped
+//@ func (cfg *Manager) ApplyEnvVars
+//@   property C15
+//@   requires cfg != nil
+//@   ensures [component-refusal-is-returned] envRefused != old(envRefused) ==> err != nil
+//@   loop 1 (range cfg.sections)
+//@     invariant envRefused == old(envRefused)
+//@   loop 2 (range section)
+//@     invariant envRefused == old(envRefused)
+//@   modifies envRefused
